@@ -764,6 +764,8 @@ func main() {
 	c.Set("instances", len(jobs))
 	c.Set("rule", "alphabet: every NewMsg* constructor x product of small per-field alphabets (points origin/(0,h)/(2^64-1,h); counters 0/1/max; lists empty/1/2; both booleans; byte strings empty/short/32 B); every instance is round-tripped through each applicable NewMsgFromCbor and then mutated: arity +-1, each field replaced by one representative of every major type its kind does not admit (uint 1, nint -1, bytes, text, [], {}, #6.24(bytes), #6.99(original), null, true), each chain point replaced by 7 non-point lists, each tip with arity +-1 and non-uint block number; distinct = (constructor, decoder, instance, mutation); oracle: round trip equal modulo stored CBOR / every mutant rejected")
 	c.Assume("the field kinds in table.go transcribe the network-spec CDDL of each message (uint, bool, bytes, point, tip, list, map, #6.24, any); fields of kind any are never mutated")
+	// free-running -race pass: concurrent callers on their own inputs (state the library shares between calls)
+	c.RaceAudit("c04")
 	c.Finish()
 }
 
